@@ -16,6 +16,8 @@ pub struct Model {
     pub big: Vec<String>,
     /// sub-second part given to every timestamp (0: whole seconds)
     pub nanos: u32,
+    /// wall-clock time when this model was created (for "modified"-class tokens)
+    pub now: i64,
     rev: HashMap<String, String>,
     interned: Vec<String>,
 }
@@ -28,6 +30,7 @@ impl Model {
             valclass: valclass.to_string(),
             big: big.to_vec(),
             nanos: 0,
+            now: Utc::now().timestamp(),
             rev: HashMap::new(),
             interned: vec![],
         }
@@ -58,6 +61,25 @@ impl Model {
 
     /// concrete string for a value token
     pub fn val(&mut self, tok: &str) -> String {
+        // modification-time classes relative to the 180-day expiration threshold
+        let day = 86400i64;
+        let special = match tok {
+            "mold" => Some((self.now - 200 * day).to_string()),
+            "medge_old" => Some((self.now - 180 * day - 300).to_string()),
+            "medge_new" => Some((self.now - 180 * day + 300).to_string()),
+            "mrecent" => Some((self.now - 10 * day).to_string()),
+            "mfuture" => Some((self.now + 400 * day).to_string()),
+            "mbad" => Some("not-a-number".to_string()),
+            "mempty" => Some(String::new()),
+            "mhuge" => Some(i64::MAX.to_string()),
+            "mneg" => Some(i64::MIN.to_string()),
+            "mfloat" => Some(format!("{}.5", self.now - 200 * day)),
+            _ => None,
+        };
+        if let Some(s) = special {
+            self.rev.insert(s.clone(), tok.to_string());
+            return s;
+        }
         let s = if self.big.iter().any(|b| b == tok) {
             let mut s = String::with_capacity(600_010);
             s.push_str(tok);
